@@ -248,7 +248,9 @@ def dc_cases(draw, tier):
     cols = [draw(st.integers(0, (1 << W) - 1)) for _ in range(m)]
     ncells = draw(st.integers(1, 6 if tier == 'thorough' else 5))
     cells = sorted({(draw(st.integers(0, m - 1)), draw(st.integers(0, W - 1))) for _ in range(ncells)})
-    return {'db': which, 'n': n, 'cols': cols, 'cells': [list(c) for c in cells]}
+    return {'db': which, 'n': n, 'cols': cols, 'cells': [list(c) for c in cells],
+            # the size measure of the lookup: default, or an explicit exclusion list (list / tuple / frozenset of gate types)
+            'excl': draw(st.sampled_from([None, None, ['INPUT'], ('INPUT', 'AND'), ['NOT'], ['INPUT', 'NOT', 'IFF']]))}
 
 
 def check_dc(case):
@@ -262,7 +264,22 @@ def check_dc(case):
     model = [list(r) for r in rows]
     for i, j in cells:
         model[i][j] = DontCare
-    res = d.get_by_raw_truth_table_model([list(r) for r in model])
+    core = cirbo_core()
+    excl = case.get('excl')
+    if excl is None:
+        res = d.get_by_raw_truth_table_model([list(r) for r in model])
+
+        def size_of(circ):
+            return circ.gates_number()
+    else:
+        names = list(excl)
+        types = [getattr(core.gate, x) for x in names]
+        arg = frozenset(types) if names == ['NOT'] else tuple(types) if isinstance(excl, tuple) or len(names) == 2 else list(types)
+        res = d.get_by_raw_truth_table_model([list(r) for r in model], exclusion_list=arg)
+
+        def size_of(circ):
+            # own count: gates whose type is not excluded
+            return sum(1 for g in refsem.from_circuit(circ)['gates'] if g[1] not in names)
     # own enumeration of the completions
     best = None
     any_found = False
@@ -274,7 +291,7 @@ def check_dc(case):
         if c is None:
             continue
         any_found = True
-        size = c.gates_number()
+        size = size_of(c)
         best = size if best is None else min(best, size)
     desc = f'{case["db"]} model lookup n={n} cols={cols} dont-cares={cells}'
     if res is None:
@@ -291,12 +308,13 @@ def check_dc(case):
                 continue
             if bool((t[o] >> j) & 1) != rows[i][j]:
                 raise Violation('dc_defined_cell', f'{desc}: output {i} row {j} differs from the defined entry')
-    if res.gates_number() > best:
-        raise Violation('dc_not_smallest', f'{desc}: returned circuit has {res.gates_number()} gates, a completion has {best}')
+    if size_of(res) > best:
+        raise Violation('dc_not_smallest', f'{desc}: returned circuit has size {size_of(res)} (measure: {"default" if excl is None else "all but " + str(list(excl))}), a completion has {best}')
     pr = wellformed.basic_problems(res)
     if pr:
         raise Violation('dc_wellformed', '; '.join(pr[:2]))
-    return {'nt': True, 'cls': {f'dc_cells={len(cells)}', case['db']}, 'key': [case['db'], n, cols, case['cells']]}
+    return {'nt': True, 'cls': {f'dc_cells={len(cells)}', case['db'], 'measure:' + ('default' if excl is None else 'explicit')},
+            'key': [case['db'], n, cols, case['cells'], list(excl) if excl else None]}
 
 
 SPEC = {
@@ -307,8 +325,8 @@ SPEC = {
              'thorough = all tables with 2 inputs x 1-3 outputs and 3 inputs x 1-2 outputs on both databases, quick = seeded '
              'sample of 5,500; Hypothesis: 3x3 tables, equal / complementary / repeated outputs, unstored shapes (4-5 outputs, '
              '1 or 4 inputs): own normalisation model decides None vs found, returned circuit must compute the requested rows '
-             'in order. Don\'t-care lookups with 1-6 free cells: agrees with every defined cell and is no larger (gates_number) '
-             'than the lookup of every completion (own enumeration). Non-trivial: lookup needing negation / re-ordering / '
+             'in order. Don\'t-care lookups with 1-6 free cells: agrees with every defined cell and is no larger (default measure, or an explicit '
+             'exclusion_list with an own gate count) than the lookup of every completion (own enumeration). Non-trivial: lookup needing negation / re-ordering / '
              'duplication; entries with a non-zero table.'),
     'assumptions': ['the set of stored labels is read from the opened database dictionary (no public iterator exists)'],
     'subs': [Sub('lookup', lookup_cases, check_lookup_case, {'quick': 1600, 'thorough': 150000}),
